@@ -407,21 +407,26 @@ def judge (i : Input) (obsQueues : ObsQueues) (outs : List Out) : Except Fail Un
   | some f => .error f
   | none => runJudge i {} 0 i.ops outs
 
-/-- Histories the property speaks about (what `TaskPool` guarantees through `is_queued`): a task is
-only queued when it is certainly not in a queue (never queued before, or removed since), and
-adopted orphans are not task names. `mq`: ids that may be queued. -/
-def wfStep (allTasks : List Name) (mq : List Nat) : Op → Option (List Nat)
-  | .push t => if mq.contains t then none else some (t :: mq)
-  | .pushIfLimited t _ => if mq.contains t then none else some (t :: mq)
-  | .remove t => some (mq.filter (· != t))
-  | .adopt os => if os.all (fun o => !allTasks.contains o) then some mq else none
-  | _ => some mq
+/-- Histories the property speaks about (what `TaskPool` guarantees): a task is only queued when
+it is certainly not in a queue (never queued before, or removed since: `is_queued`), queued
+proxies are instances of task names or of adopted orphans, and adopted orphans are not task
+names. State: ids that may be queued, names adopted so far. -/
+def wfStep (allTasks names : List Name) (w : List Nat × List Name) : Op → Option (List Nat × List Name)
+  | .push t =>
+    if w.1.contains t || !(allTasks.contains (nameOf names t) || w.2.contains (nameOf names t)) then none
+    else some (t :: w.1, w.2)
+  | .pushIfLimited t _ =>
+    if w.1.contains t || !(allTasks.contains (nameOf names t) || w.2.contains (nameOf names t)) then none
+    else some (t :: w.1, w.2)
+  | .remove t => some (w.1.filter (· != t), w.2)
+  | .adopt os => if os.all (fun o => !allTasks.contains o) then some (w.1, w.2 ++ os) else none
+  | _ => some w
 
-def wfOps (allTasks : List Name) : List Nat → List Op → Bool
+def wfOps (allTasks names : List Name) : List Nat × List Name → List Op → Bool
   | _, [] => true
-  | mq, op :: ops =>
-    match wfStep allTasks mq op with
-    | some mq' => wfOps allTasks mq' ops
+  | w, op :: ops =>
+    match wfStep allTasks names w op with
+    | some w' => wfOps allTasks names w' ops
     | none => false
 
 end Spec
